@@ -1,4 +1,5 @@
 mod codec;
+mod container;
 mod deflate;
 mod gen;
 mod util;
@@ -26,6 +27,9 @@ fn main() {
         "deflate-trace-generated" => deflate::trace_generated(&args),
         "deflate-replay-hex" => deflate::replay_hex(&args),
         "deflate-short" => deflate::exhaustive_short(&args),
+        "container-replay" => container::replay(&args),
+        "container-record" => container::record(&args),
+        "container-replay-hex" => container::replay_hex(&args),
         other => {
             eprintln!("unknown subcommand {}", other);
             2
